@@ -42,6 +42,9 @@ for C in $ID $EXTRA; do
   echo "$OUT" | grep -E "^VIOLATION|fingerprint:|what:|^INCONCLUSIVE|^KNOWN|verdict=" | cut -c1-400 | head -16
   [ "$C" = "$ID" ] && RC=$rc
 done
-rm -f $V/.build/*-alt-*.test
-rm -rf $V/.work/*-alt-*
+# scratch output of the alternative-repository runs (several trymut runs may be in flight: TRYMUT_KEEP=1 leaves the clean-up to the caller)
+if [ -z "${TRYMUT_KEEP:-}" ]; then
+  rm -f $V/.build/*-alt-*.test
+  rm -rf $V/.work/*-alt-*
+fi
 if [ $RC -eq 1 ]; then echo "RESULT: DETECTED"; else echo "RESULT: MISSED (exit $RC)"; fi
